@@ -130,7 +130,10 @@ pub fn run(out: &mut Out, rng: &mut Rng, thorough: bool) {
 			.map(|i| Val::Map(vec![(Val::Str("id".into()), Val::Int(i as i128)), (Val::Str("name".into()), Val::Str(format!("row \"{i}\" \u{e9}: [x, y]"))), (Val::Str("tags".into()), Val::Seq(vec![Val::Bool(i % 2 == 0)]))]))
 			.collect(),
 	);
-	if let Some(js) = spell(Fmt::Json, &big_rows, &Spelling::plain()) {
+	// ... and one whose 2 MiB mark falls inside a single quoted scalar
+	let big_string = Val::Map(vec![(Val::Str("k".into()), Val::Str("a: b \u{e9}# ".repeat(400_000))), (Val::Str("z".into()), Val::Int(1))]);
+	for (what, doc) in [("60 000 rows", &big_rows), ("one 3.6 MB string", &big_string)] {
+		let Some(js) = spell(Fmt::Json, doc, &Spelling::plain()) else { continue };
 		for f in [Fmt::Json, Fmt::Yaml, Fmt::Msgpack] {
 			let produced = translate(&js, &Supply::Slice, Some(Fmt::Json), f);
 			if !produced.ok() || produced.output.len() <= 2 * 1024 * 1024 {
@@ -139,18 +142,18 @@ pub fn run(out: &mut Out, rng: &mut Rng, thorough: bool) {
 			}
 			for supply in [Supply::Slice, Supply::Reader(vec![65536]), Supply::Reader(vec![4096]), Supply::Reader(vec![])] {
 				let det = detect(&produced.output, &supply);
-				out.eval("own_output_detected", &format!("big-{}-{}", f.name(), supply.describe()), true);
+				out.eval("own_output_detected", &format!("big-{what}-{}-{}", f.name(), supply.describe()), true);
 				if det != Ok(Some(f)) {
 					out.fail(
 						"own_output_detected",
 						"",
-						format!("xt(json→{}) of 60 000 rows produced {} bytes (one document) which, supplied as {}, is detected as {:?}, not {}", f.name(), produced.output.len(), supply.describe(), det, f.name()),
+						format!("xt(json→{}) of {what} produced {} bytes (one document) which, supplied as {}, is detected as {:?}, not {}", f.name(), produced.output.len(), supply.describe(), det, f.name()),
 					);
 					continue;
 				}
 				let implicit = translate(&produced.output, &supply, None, Fmt::Msgpack);
 				let explicit = translate(&produced.output, &supply, Some(f), Fmt::Msgpack);
-				out.eval("pipe_eq_pipe_f", &format!("big-{}-{}", f.name(), supply.describe()), explicit.ok());
+				out.eval("pipe_eq_pipe_f", &format!("big-{what}-{}-{}", f.name(), supply.describe()), explicit.ok());
 				if implicit != explicit {
 					out.fail("pipe_eq_pipe_f", "", format!("xt -t {} output of {} bytes fed back ({}) to -t msgpack: without -f {} / with -f {}", f.name(), produced.output.len(), supply.describe(), if implicit.ok() { "ok".into() } else { format!("{:?}", implicit.result) }, if explicit.ok() { "ok".into() } else { format!("{:?}", explicit.result) }));
 				}
